@@ -99,19 +99,19 @@ CopyBody ==
           /\ IF cur < n THEN pc' = "send" /\ cur' = cur + 1 ELSE pc' = "downloaded" /\ cur' = 0
   /\ UNCHANGED <<envVars, reqLog, outs, touched, retried, exit>>
 
-Range(s) == {s[i] : i \in 1..Len(s)}
+Elems(s) == {s[i] : i \in 1..Len(s)}
 
 \* a failed host: DownloadClusterLogs deletes what it has registered so far and returns the error; main exits 1
 DownloadFail ==
   /\ pc = "dlfail"
-  /\ tmp' = tmp \ Range(reg) /\ reg' = <<>> /\ exit' = 1 /\ pc' = "done"
+  /\ tmp' = tmp \ Elems(reg) /\ reg' = <<>> /\ exit' = 1 /\ pc' = "done"
   /\ UNCHANGED <<envVars, cur, reqLog, outs, touched, retried>>
 
 \* library level: the caller deletes the files; CLI: the redaction loop starts
 Downloaded ==
   /\ pc = "downloaded"
   /\ IF cli THEN pc' = "createOut" /\ cur' = 1 /\ UNCHANGED <<tmp, exit>>
-     ELSE tmp' = tmp \ Range(reg) /\ exit' = 0 /\ pc' = "done" /\ UNCHANGED cur
+     ELSE tmp' = tmp \ Elems(reg) /\ exit' = 0 /\ pc' = "done" /\ UNCHANGED cur
   /\ UNCHANGED <<envVars, reqLog, reg, outs, touched, retried>>
 
 \* main.go loop over files[i]: os.Create(<out>.<i>)
@@ -132,9 +132,9 @@ RedactFile ==
   /\ UNCHANGED <<envVars, reqLog, tmp, reg, touched, retried, exit>>
 
 \* cleanUpDownloadedLogs() on a failure path, then os.Exit(1) (fix 1341ee9)
-CleanupFail == /\ pc = "cleanupFail" /\ tmp' = tmp \ Range(reg) /\ exit' = 1 /\ pc' = "done"
+CleanupFail == /\ pc = "cleanupFail" /\ tmp' = tmp \ Elems(reg) /\ exit' = 1 /\ pc' = "done"
                /\ UNCHANGED <<envVars, cur, reqLog, reg, outs, touched, retried>>
-CleanupOk   == /\ pc = "cleanupOk" /\ tmp' = tmp \ Range(reg) /\ exit' = 0 /\ pc' = "done"
+CleanupOk   == /\ pc = "cleanupOk" /\ tmp' = tmp \ Elems(reg) /\ exit' = 0 /\ pc' = "done"
                /\ UNCHANGED <<envVars, cur, reqLog, reg, outs, touched, retried>>
 
 AtlasNext == KeyFail \/ SendUnauth \/ ParserCrash \/ SendAuth \/ TransportRetry \/ Response \/ CopyBody \/ DownloadFail \/ Downloaded
